@@ -59,7 +59,10 @@ def encDump (d : Dump) : String :=
   let blocks := d.blocks.map fun (k, (_, c)) =>
     encList [encOptStr k, encList (c.nodes.map fun n => encStr n.1), encInters c.inters, encAtomCols c,
              encOptInt c.nrexcl]
-  let links := d.links.map fun (_, c) => encList [encNodes c, encInters c.inters, encInters c.removed]
+  let links := d.links.map fun (_, c) => encList [encNodes c, encInters c.inters, encInters c.removed,
+    encList (c.nonEdges.map fun e => encList [encStr e.1, encAttrs e.2]),
+    encList (c.patterns.map fun pat => encList (pat.map fun a => encList [encStr a.1, encAttrs a.2])),
+    encList ((c.features.mergeSort strLe).map encStr)]
   let mods := d.mods.map fun (k, (_, c)) => encList [encOptStr k, encNodes c, encInters c.inters]
   encList [encList blocks, encList links, encList mods]
 
